@@ -412,7 +412,7 @@ func stageCopyStressCase(col *Collector, d time.Duration) {
 func runC08(col *Collector, tier string, seed int64) {
 	withEnvCase(col)
 	stageCopyStressCase(col, map[bool]time.Duration{false: 2 * time.Second, true: 12 * time.Second}[tier == "thorough"])
-	varsOpsCases(col, rand.New(rand.NewSource(seed+808)), map[bool]int{false: 200, true: 3000}[tier == "thorough"])
+	varsOpsCases(col, rand.New(rand.NewSource(seed+808)), map[bool]int{false: 200, true: 3000}[tier == "thorough"], "c08-leak")
 	rng := rand.New(rand.NewSource(seed))
 	col.res.Rule = "2..6 stages sharing one task, each with its own subset of env names {A,B}, variables {x,y} and dir override over task-level settings, in every dependency arrangement on <=4 stages (parallel / chain / mixed; all DAGs), " +
 		"built as Stage values and through internal/config (buildPipeline), pipeline run 1-2 times with the real runner, followed by a direct run of the task; every execution prints what it sees. non-trivial = all; distinct = distinct specifications"
